@@ -1,3 +1,4 @@
+import ErbiumModel.Generated.Ra
 /-! Executable model of the router-advertisement path: `RaAdvService::build_announcement_pure`
     (`radv/mod.rs`) and `icmppkt::serialise` (`radv/icmppkt.rs`). Durations are whole seconds (the
     configuration grammar has no finer unit). -/
@@ -115,6 +116,18 @@ def plc (len : Nat) : Option Nat :=
 /-- prefix bits beyond the length zeroed -/
 def maskPrefix (addr len : Nat) : Nat := addr / 2 ^ (128 - min len 128) * 2 ^ (128 - min len 128)
 
+/-- `slice::chunks(n)` (`fuel` ≥ the length) -/
+def chunks {α : Type} (n : Nat) : Nat → List α → List (List α)
+  | 0, _ => []
+  | fuel + 1, l => if l.isEmpty then [] else l.take n :: chunks n fuel (l.drop n)
+
+/-- one RDNSS option -/
+def rdnssOpt (lt : Nat) (servers : List Nat) : Bytes :=
+  [25, (1 + servers.length * 2) % 256, 0, 0] ++ u32 (clamp lt 0xffffffff) ++ servers.flatMap u128
+
+/-- the zero octet (`url.contains('\\0')`) -/
+def hasNul (url : Bytes) : Bool := url.any (· == 0)
+
 def serOpt : NdOpt → Bytes
   | .sourceLL mac => [1, (mac.length + 7) / 8 % 256] ++ mac
   | .mtu m => [5, 1, 0, 0] ++ u32 m
@@ -123,10 +136,14 @@ def serOpt : NdOpt → Bytes
     u32 (clamp p.valid 0xffffffff) ++ u32 (clamp p.preferred 0xffffffff) ++ [0, 0, 0, 0] ++ u128 (maskPrefix p.addr p.len)
   | .rdnss lt servers =>
     if servers.isEmpty then [] else
-    [25, (1 + servers.length * 2) % 256, 0, 0] ++ u32 (clamp lt 0xffffffff) ++ servers.flatMap u128
+    -- one option per `chunks(N)` of the addresses (N = 0: the source writes a single option)
+    if Generated.Ra.rdnssChunk = 0 then rdnssOpt lt servers
+    else (chunks Generated.Ra.rdnssChunk servers.length servers).flatMap (rdnssOpt lt)
   | .dnssl lt domains =>
     if domains.isEmpty then [] else
     let body := padTo8 (domains.flatMap encodeDomain) 0
+    -- left out when the length does not fit its octet (`u8::try_from … continue`), when the source checks
+    if Generated.Ra.dnsslLengthChecked && decide (1 + body.length / 8 ≥ 256) then [] else
     [31, (1 + body.length / 8) % 256, 0, 0] ++ u32 (clamp lt 0xffffffff) ++ body
   | .pref64 lt len pfx =>
     match plc len with
@@ -134,6 +151,7 @@ def serOpt : NdOpt → Bytes
     | none => []
   | .captivePortal url =>
     let b := padTo8 url 2
+    if Generated.Ra.captiveLengthChecked && (decide (1 + b.length / 8 ≥ 256) || hasNul url) then [] else
     [37, (1 + b.length / 8) % 256] ++ b
 
 /-- `icmppkt::serialise(Icmp6::RtrAdvert(a))` -/
